@@ -108,7 +108,9 @@ def run_case(case, work):
         # the raw `f` lines (characters, for the text-level model ObjText.face_line); capped: the
         # oracle-only plates are judged on the tokens
         fraw = [ln for ln in text.split('\n') if ln[:1] == 'f']
-        return {'lines': lines, 'read': back, 'fraw': fraw if len(fraw) <= 4000 else None}
+        vraw = [ln for ln in text.split('\n') if ln[:1] == 'v']
+        return {'lines': lines, 'read': back, 'fraw': fraw if len(fraw) <= 4000 else None,
+                'vraw': vraw if len(vraw) <= 4000 else None}
 
     def v_to_surface_all(fd):
         s = fd.to_surface(remove_unnecessary_nodes=False)
